@@ -607,6 +607,27 @@ def direct_package_level():
                  % (comp, ", ".join("%s=%r" % kv for kv in kw.items()), a, b), input=dict(compound=comp))
 
 
+def direct_private_atoms():
+    """a compound of atoms of a private table is computed with those atoms: SLD = r_e N_A density / mass x sum(n f), with the mass
+    of the private atoms (a private boron enriched in B-10 is lighter, so the same density holds more formula units)"""
+    from periodictable import mass as _mass, density as _density
+    try:
+        priv = core.PeriodicTable("verif_c05_private")
+        _mass.init(priv); _density.init(priv); xsf.init(priv)
+        priv.B._mass = 10.2
+        fp, fq = formulas.formula("B4C", table=priv), formulas.formula("B4C")
+        a = xsf.xray_sld(fp, density=2.5, energy=8.0)
+        b = xsf.xray_sld(fq, density=2.5, energy=8.0)
+        want = [float(b[0]) * fq.mass / fp.mass, float(b[1]) * fq.mass / fp.mass]
+        if not (close(float(a[0]), want[0], abs(want[0]), rel=1e-9) and close(float(a[1]), want[1], abs(want[1]), rel=1e-9)):
+            fail("C05:private-table-atoms", "xray_sld(formula('B4C', table=T), density=2.5, energy=8) with T.B._mass = 10.2 gives %r; "
+                 "r_e N_A density/mass sum(n f) with the masses of T's atoms gives %r" % ((float(a[0]), float(a[1])), want),
+                 input=dict(compound="B4C on a private table with B mass 10.2"))
+    except Exception as e:  # noqa
+        fail("C05:private-table-atoms", "xray_sld on a formula of private-table atoms raised %s: %s" % (type(e).__name__, e),
+             input=dict(compound="B4C on a private table"))
+
+
 def direct_conversion():
     for x in (0.5, 1.5418, 8.04, 30.0):
         w = float(xsf.xray_wavelength(x))
@@ -832,6 +853,7 @@ def main():
     direct_compounds(els + [T.H])
     direct_f0()
     direct_package_level()
+    direct_private_atoms()
 
     json.dump(dict(cases=cases, meta=meta, direct_fails=direct_fails,
                    stats=dict(elements=[e.symbol for e in els], tables=len(TAB), element_stream=st_el,
